@@ -435,6 +435,14 @@ impl<R: Read + Seek> Seek for CompressionLayerReader<'_, R> {
             Some(sizes_info) => {
                 match pos {
                     SeekFrom::Start(pos) => {
+                        if matches!(self.state, CompressionLayerReaderState::Empty) {
+                            // An earlier operation failed midway and the inner layer is lost
+                            return Err(Error::WrongReaderState(
+                                "[Compression Layer] Seek after a failed operation".to_string(),
+                            )
+                            .into());
+                        }
+
                         // Find the right block
                         let inside_block = pos % u64::from(UNCOMPRESSED_DATA_SIZE);
                         let rounded_pos = pos - inside_block;
